@@ -23,7 +23,6 @@ sufficient decrease.
 
 import logging
 import warnings
-from copy import copy
 from typing import Optional
 
 import numpy as np
@@ -250,6 +249,9 @@ def line_search(
 
     task = b"START"
     f_m1 = f0
+    # best trial so far: only a point strictly better than the start is accepted
+    best_f = f0
+    best_stp: Optional[float] = None
     dphi_m1 = dphi0
     _iter = 0
 
@@ -271,7 +273,7 @@ def line_search(
                 # optimize.minpack2 might be deprecated but we handle this deprecation
                 # for python above 3.8 so no need to raise a warning.
                 warnings.filterwarnings("ignore", category=DeprecationWarning)
-                steplength, f0, dphi0, task = sp.optimize.minpack2.dcsrch(
+                steplength, _, dphi0, task = sp.optimize.minpack2.dcsrch(
                     steplength_0,
                     f_m1,
                     dphi_m1,
@@ -286,17 +288,17 @@ def line_search(
                 )
         else:
             # newer version, with a pure python implementation
-            steplength, f0, dphi0, task = dcsrch._iterate(
+            steplength, _, dphi0, task = dcsrch._iterate(
                 steplength_0, f_m1, dphi_m1, task
             )
 
         if task[:2] == b"FG":
-            stp_old: float = copy(steplength_0)
-            f_m1_old: float = copy(f_m1)
             steplength_0 = steplength
             f_m1, dphi_m1 = sf.fun_and_grad(np.clip(x0 + steplength * d, lb, ub))
             dphi_m1 = dphi_m1.dot(d)
-            best_stp = steplength if f_m1 < f_m1_old else stp_old
+            if f_m1 < best_f:
+                best_f = f_m1
+                best_stp = steplength
         else:
             break
         _iter += 1
@@ -312,6 +314,8 @@ def line_search(
     if task[:4] != b"CONV" and task[:4] != b"WARN":
         return None
 
+    if best_stp is None:
+        return None
     steplength = best_stp
 
     task = b"NEW_X"
